@@ -43,6 +43,13 @@ def rule_parse_specials(col, facts):
                     for k in expr_consts(rvalue_expr(f, st[2], 0)):
                         if last_seg(k[1]) in ("NAN", "INFINITY", "NEG_INFINITY") and "Float" in k[1]:
                             users.setdefault(f.short, set()).add(last_seg(k[1]))
+    merged = {}
+    for u, ks in users.items():
+        fu = facts.fn(u)
+        owner = fu.closure_of if fu.kind == "Closure" else u         # a closure belongs to the function it is written in
+        merged.setdefault(owner, set()).update(ks)
+    in_closures = any(facts.fn(u).kind == "Closure" for u in users)
+    users = merged
     for u, ks in users.items():
         col.check(R2, u, u == PF + "parse::parse_positive_special", "%s materialises %s: only parse_positive_special may produce non-finite constants" % (u, sorted(ks)), facts.fn(u).loc())
     col.check(R2, "parse_positive_special-produces", users.get(PF + "parse::parse_positive_special") == {"NAN", "INFINITY"},
@@ -57,6 +64,18 @@ def rule_parse_specials(col, facts):
                 conds = path_conditions(pps, bb)
                 ok = any(strip_casts(e)[0] == "call" and strip_casts(e)[1].endswith("NumberFormat::no_special") and pol is False for _d, e, pol in conds)
                 col.check("MPT-no_special", "is_special_eq#%d" % m, ok, "special strings are compared although format.no_special() was not tested false", pps.loc(pps.blocks[bb]["ts"]))
+    if m == 0:
+        # the comparisons were moved into a helper: its call sites in parse_positive_special are the sites
+        def calls_eq(g, depth=0):
+            return any(callee_name(c2) == PF + "parse::is_special_eq" or (depth < 2 and any(h.crate == g.crate and calls_eq(h, depth + 1) for h in facts.by_short.get(callee_name(c2), []))) for _b, c2, _a, _d, _t in g.calls())
+        closures = [g for g in facts.all_fns() if g.kind == "Closure" and g.closure_of == pps.short]
+        for bb, c, a, d, t in pps.calls():
+            if any(h.crate == pps.crate and calls_eq(h) for h in facts.by_short.get(callee_name(c), [])):
+                m += 1
+                if "format" in facts.config:
+                    ok = any(strip_casts(e)[0] == "call" and strip_casts(e)[1].endswith("NumberFormat::no_special") and pol is False for _d, e, pol in path_conditions(pps, bb))
+                    col.check("MPT-no_special", "is_special_eq#%d" % m, ok, "special strings are compared although format.no_special() was not tested false", pps.loc(pps.blocks[bb]["ts"]))
+        m += sum(1 for g in closures if calls_eq(g))
     col.floor("MPT-no_special", "is_special_eq call sites", m, 3)
     # which option string leads to which constant
     pairs = []
@@ -85,8 +104,14 @@ def rule_parse_specials(col, facts):
                     tabled.append((ks[0], frozenset(getters)))
     if len(tabled) >= 3:
         pairs = tabled
+    elif in_closures and set(pairs) != {("NAN", frozenset(["nan_string"])), ("INFINITY", frozenset(["inf_string"])), ("INFINITY", frozenset(["infinity_string"]))}:
+        # a constant is attached inside a closure (`.map(|count| (F::INFINITY, count))`): which string led there
+        # is not read across the closure boundary
+        col.assumed("not-applied", "PAIR-special:string->constant", "a non-finite constant is attached inside a closure of parse_positive_special: the string -> constant pairing is not decided", pps.loc())
+        pairs = None
     want = {("NAN", frozenset(["nan_string"])), ("INFINITY", frozenset(["inf_string"])), ("INFINITY", frozenset(["infinity_string"]))}
-    col.check("PAIR-special", "string->constant", set(pairs) == want, "special strings map to constants as %s" % sorted((k, sorted(v)) for k, v in pairs), pps.loc())
+    if pairs is not None:
+      col.check("PAIR-special", "string->constant", set(pairs) == want, "special strings map to constants as %s" % sorted((k, sorted(v)) for k, v in pairs), pps.loc())
     # sign applied after the match, only under is_negative
     pp = facts.fn(PF + "parse::parse_partial_special")
     negs = []
@@ -97,6 +122,17 @@ def rule_parse_specials(col, facts):
         t = b["t"]
         if t["k"] == "call" and callee_name(t["f"]).endswith("ops::arith::Neg::neg"):
             negs.append(i)
+    if not negs:
+        # the negation may sit in a closure handed to Option::map: `.map(|(f, n)| (if is_negative { -f } else { f }, n))`
+        for g in facts.all_fns():
+            if g.kind == "Closure" and g.closure_of == pp.short:
+                gneg = [i for i, b in enumerate(g.blocks) for st in b["s"] if st[0] == "=" and st[2][0] == "un" and st[2][1] == "Neg"] + \
+                       [i for i, b in enumerate(g.blocks) if b["t"]["k"] == "call" and callee_name(b["t"]["f"]).endswith("ops::arith::Neg::neg")]
+                if len(gneg) == 1 and path_conditions(g, gneg[0]):
+                    col.assumed("not-applied", "PAIR-special:sign-after-match", "the negation is inside a closure of parse_partial_special, under a captured condition: not decided that it is `is_negative`", pp.loc())
+                    negs = None
+    if negs is None:
+        return
     ok = len(negs) == 1 and any(strip_casts(e)[:2] == ("arg", 2) and pol is True for _d, e, pol in path_conditions(pp, negs[0]))
     col.check("PAIR-special", "sign-after-match", ok, "parse_partial_special must negate exactly once, under `is_negative`", pp.loc())
 
